@@ -66,6 +66,9 @@ func gate(op, path, path2 string, write bool, flags int) (int, error) {
 	}
 	if path2 != "" {
 		o.Path2 = absClean(path2)
+		if write {
+			o.Real2 = resolve(path2)
+		}
 	}
 	var err error
 	if write {
